@@ -17,6 +17,7 @@ def run(ctx):
     import prune_corr
     concurrent_runs(ctx)
     gated_literal_arguments(ctx)
+    add_and_source_on_one_store(ctx)
     forgotten_registry(ctx)
     registry_order(ctx)
     planlevel.plan_campaign(ctx, {"C01"}, n_quick=100, n_thorough=2000)
@@ -168,10 +169,11 @@ def gated_literal_arguments(ctx):
     uj = core.use_repo()
     combos = [(k, workers, scheduler, y_form, container, wired)
               for k in (1, 2, 3) for workers in (1, 2, 4) for scheduler in (None, "random") for y_form in ("argument", "dependency", "gated-literal")
-              for container in (None, "list", "dict", "tuple") for wired in ("before", "after")]
+              for container in (None, "list", "dict", "tuple") for wired in ("before", "after", "between-two-uses")]
     if ctx.quick:
         combos = [c for c in combos if c[4] is None and c[5] == "before"] + ctx.rng.sample([c for c in combos if not (c[4] is None and c[5] == "before")], 60) \
-            + [(1, 1, None, "argument", "list", "after"), (2, 2, "random", "dependency", "dict", "after")]
+            + [(1, 1, None, "argument", "list", "after"), (2, 2, "random", "dependency", "dict", "after"), (1, 2, None, "argument", None, "between-two-uses"),
+               (2, 4, "random", "dependency", None, "between-two-uses"), (1, 1, None, "gated-literal", "list", "between-two-uses")]
     for k, workers, scheduler, y_form, container, wired in combos:
         lock, ev = threading.Lock(), []
 
@@ -196,6 +198,11 @@ def gated_literal_arguments(ctx):
         def wrap(li):
             return li if container is None else [li, 0] if container == "list" else {"k": li} if container == "dict" else (0, li)
         extra = [y] if y_form == "argument" else []
+        if wired == "between-two-uses":
+            # the literal is used once, THEN gated, then used again by the call under observation
+            plan.call(mk("early", 0.0), *[wrap(li) for li in lits])
+            for li in lits:
+                plan.add_dependency(x, li)
         t = plan.call(mk("t", 0.0), *[wrap(li) for li in lits[:1]], *extra, **{"g%d" % i: wrap(li) for i, li in enumerate(lits[1:])})
         if wired == "after":
             for li in lits:
@@ -260,3 +267,66 @@ def forgotten_registry(ctx):
                 if oc != "callerror" or bad:
                     ctx.fail("forgotten-registry", "a registry.source node run without its registry (retry=%r): run %s; calls that depend on the source started: %r"
                              % (retry, oc, bad), {"retry": retry, "max_workers": workers, "max_errors": max_errors})
+
+
+def add_and_source_on_one_store(ctx):
+    """ONE ValueStore object is registered for a computed node x (registry.add) and, again, as a dependent source y
+    (registry.source + add_dependency(p, y), where p uses x): the consumer of y starts only after p has finished - under every
+    store state (empty / filled), worker count and scheduler."""
+    import datetime as dt
+    import threading
+    import time
+    uj = core.use_repo()
+    for filled in (False, True):
+        for workers in (2, 4, 1):
+            for scheduler in (None, "random"):
+                lock, ev = threading.Lock(), []
+
+                class Mem(uj.ValueStore):
+                    def __init__(self):
+                        self.v, self.t = (7, dt.datetime(2020, 1, 1)) if filled else (None, None)
+
+                    def read(self):
+                        return self.v
+
+                    def write(self, v):
+                        self.v, self.t = v, dt.datetime(2021, 1, 1)
+
+                    def get_modified_time(self):
+                        return self.t
+
+                def mk(nm, dur):
+                    def f(*a):
+                        with lock:
+                            ev.append(("start", nm))
+                        time.sleep(dur)
+                        with lock:
+                            ev.append(("end", nm))
+                        return a[0] if a else 1
+                    f.__name__ = nm
+                    return f
+                s = Mem()
+                plan, reg = uj.Plan(), uj.Registry()
+                x = plan.call(mk("x", 0.0))
+                reg.add(x, s)
+                p = plan.call(mk("update", 0.15), x)
+                y = reg.source(plan, s)
+                plan.add_dependency(p, y)
+                c = plan.call(mk("consume", 0.0), y)
+                ctx.case(("add-and-source-one-store", filled, workers, scheduler))
+                try:
+                    res = core.call_watched(lambda: uj.run(plan, registry=reg, output=c, max_workers=workers, scheduler=scheduler, progress=None), timeout=30)
+                    oc = "returned %r" % (res,)
+                except BaseException as e:      # noqa
+                    oc = "raised %s: %r" % (type(e).__name__, getattr(e, "__cause__", None))
+                done = set()
+                bad = None
+                for kind, nm in ev:
+                    if kind == "end":
+                        done.add(nm)
+                    elif nm == "consume" and "update" not in done and ("start", "update") in ev:
+                        # (an up-to-date dependent source does not pull its predecessors: then `update` does not run at all)
+                        bad = "consume started before update had finished"
+                if not oc.startswith("returned") or bad:
+                    ctx.fail("add-and-source-one-store", "one store object registered for a computed node and as a dependent source (store %s, max_workers=%d, scheduler=%r): run %s; %s"
+                             % ("filled" if filled else "empty", workers, scheduler, oc, bad or "order fine"), {"filled": filled, "max_workers": workers, "scheduler": scheduler, "events": ev})
